@@ -262,6 +262,60 @@ func init() {
 		i.installGuardHooks()
 		return nil
 	}
+	harnessAPI["verifGuardNamed"] = func(fr *frame, a []value) value {
+		// verifGuardNamed(name string, obj any, mutexField string): like verifGuard, the mutex being
+		// the field of that name (looked up at run time, so the harness still compiles when a
+		// refactoring removes it). Without such a field the object is guarded by "no lock at all":
+		// every plain store to it is then a finding (only sync/atomic accesses remain legal).
+		i := fr.i
+		obj := a[1].(iface)
+		field := a[2].(string)
+		g := &guardSet{name: nameArg(a[0]), cells: map[*value]string{}, maps: map[*smap]string{}}
+		if p, ok := obj.v.(*value); ok && p != nil {
+			if st, ok := deref(obj.t).Underlying().(*types.Struct); ok {
+				if sv, ok := (*p).(structure); ok {
+					for k := 0; k < st.NumFields(); k++ {
+						if st.Field(k).Name() == field {
+							g.mu = &sv[k]
+						}
+					}
+				}
+			}
+		}
+		if g.mu == nil {
+			var none value = structure{}
+			g.mu = &none // never held
+			g.name += " (no mutex field " + field + ")"
+		}
+		i.collectCells(obj.v, obj.t, nameArg(a[0]), g, map[*value]bool{}, 0)
+		i.guards = append(i.guards, g)
+		i.installGuardHooks()
+		return nil
+	}
+	harnessAPI["verifHeldNamed"] = func(fr *frame, a []value) value {
+		// verifHeldNamed(obj any, mutexField string) int: as verifHeld for the named field; 0 when absent
+		i := fr.i
+		obj := a[0].(iface)
+		field := a[1].(string)
+		if p, ok := obj.v.(*value); ok && p != nil {
+			if st, ok := deref(obj.t).Underlying().(*types.Struct); ok {
+				if sv, ok := (*p).(structure); ok {
+					for k := 0; k < st.NumFields(); k++ {
+						if st.Field(k).Name() == field {
+							if li := i.locks[&sv[k]]; li != nil {
+								n := li.readers
+								if li.writer {
+									n++
+								}
+								return n
+							}
+						}
+					}
+				}
+			}
+		}
+		return 0
+	}
 	harnessAPI["verifFreeze"] = func(fr *frame, a []value) value {
 		// verifFreeze(name string, roots ...any): nothing reachable from the roots (and from
 		// the package-level variables of the module) may be written from now on
